@@ -1225,6 +1225,79 @@ func checkShimHeaders(p *Prog, lr *leaderRoles, res *Result, rule string) {
 	if n == 0 {
 		res.und(rule, "etcd shim: response headers", "-", "no header construction found in the shim")
 	}
+	// the revision an etcd event names for its key-value: where the watch translation sets ModRevision itself (the
+	// DELETE event, whose key-value is built in place), it is the revision of the event - the watch answer's header is
+	// taken from the last event's ModRevision, and the deleted version's own revision is older than the events before it
+	evT := p.namedType("github.com/kubewharf/kubebrain-client/api/v2rpc", "Event")
+	var evRev *types.Var
+	es := evT.Underlying().(*types.Struct)
+	for i := 0; i < es.NumFields(); i++ {
+		if es.Field(i).Name() == "Revision" {
+			evRev = es.Field(i)
+		}
+	}
+	for _, f := range fs {
+		usesEvent := false
+		for _, b := range f.Blocks {
+			for _, ins := range b.Instrs {
+				if fa, ok := ins.(*ssa.FieldAddr); ok && fieldOf(fa) == evRev {
+					usesEvent = true
+				}
+			}
+		}
+		k := 0
+		for _, b := range f.Blocks {
+			for _, ins := range b.Instrs {
+				st, ok := ins.(*ssa.Store)
+				if !ok {
+					continue
+				}
+				fa, ok := st.Addr.(*ssa.FieldAddr)
+				if !ok || fieldOf(fa).Name() != "ModRevision" || fieldOf(fa).Pkg() == nil || !strings.Contains(fieldOf(fa).Pkg().Path(), "mvccpb") {
+					continue
+				}
+				// only translations of events (functions that look at an event's revision, or literals nested in them)
+				top := f
+				for top.Parent() != nil {
+					top = top.Parent()
+				}
+				if !usesEvent && top == f {
+					continue
+				}
+				if !usesEvent {
+					// a literal of the watch translation that never looks at the event's revision
+					isWatch := false
+					for _, g := range withAnon(top) {
+						for _, b2 := range g.Blocks {
+							for _, i2 := range b2.Instrs {
+								if fa2, ok := i2.(*ssa.FieldAddr); ok && fieldOf(fa2).Pkg() != nil && fieldOf(fa2).Name() == "PrevKv" && strings.Contains(fieldOf(fa2).Pkg().Path(), "mvccpb") {
+									isWatch = true
+								}
+							}
+						}
+					}
+					if !isWatch {
+						continue
+					}
+				}
+				k++
+				construct := fmt.Sprintf("%s: ModRevision #%d set by the event translation is the event's revision", funcName(top), k)
+				good := derivesFromCallArgs(p, st.Val, func(x ssa.Value) bool {
+					if ld, ok := x.(*ssa.UnOp); ok && ld.Op == token.MUL {
+						if fa2, ok := ld.X.(*ssa.FieldAddr); ok && fieldOf(fa2) == evRev {
+							return true
+						}
+					}
+					return false
+				})
+				if good {
+					res.ok(rule, construct, p.pos(st.Pos()), "Event.Revision")
+				} else {
+					res.bad(rule, construct, p.pos(st.Pos()), "the key-value of a translated event names a revision other than the event's own (for a DELETE: the revision of the deleted version): the watch answer's header is taken from the last event's ModRevision and then lies below the revisions of the events it carries")
+				}
+			}
+		}
+	}
 }
 
 func allAnon(f *ssa.Function) []*ssa.Function {
